@@ -448,7 +448,7 @@ func runC08(r *Run) {
 		return fc.qeT(fc.chip.Lookup2(b0, b1, q[0], q[1], q[2], q[3])), eN(want)
 	}})
 	// exponentiation: the exponent is a circuit-build-time constant
-	exps := []uint64{0, 1, 2, 3, 4, 5, 7, 8, 15, 16, 17, 63, 64, 65, 255, 256, 258}
+	exps := []uint64{0, 1, 2, 3, 4, 5, 7, 8, 15, 16, 17, 63, 64, 65, 255, 256, 258, 1 << 32, 1<<32 + 1, 1<<40 + 3, 1 << 63, ^uint64(0)} // includes exponents that need more than 32 bits
 	if r.Thorough() {
 		for e := uint64(0); e <= 64; e++ {
 			exps = append(exps, e)
